@@ -78,12 +78,22 @@ func (c *Ctx) installsHandlers(fn *ssa.Function, seen map[*ssa.Function]bool) (p
 
 // isPingWrite: in writes a websocket ping, directly or through static tree callees.
 func (c *Ctx) isPingWrite(in ssa.Instruction, seen map[*ssa.Function]bool) bool {
+	return c.isPingWriteIn(in, seen, nil)
+}
+
+// isPingWriteIn: bind maps the parameters of the helper being looked into to the arguments of the call that
+// led there (writeControl(websocket.PingMessage, nil) -> WriteMessage(kind, data)).
+func (c *Ctx) isPingWriteIn(in ssa.Instruction, seen map[*ssa.Function]bool, bind map[*ssa.Parameter]ssa.Value) bool {
 	ci, ok := in.(ssa.CallInstruction)
 	if !ok {
 		return false
 	}
 	if calleeName(ci) == "(*"+gorilla+".Conn).WriteMessage" {
-		if k, ok := constInt(ci.Common().Args[1]); ok && k == 9 { // websocket.PingMessage
+		kind := ci.Common().Args[1]
+		if prm, isP := kind.(*ssa.Parameter); isP && bind != nil && bind[prm] != nil {
+			kind = bind[prm]
+		}
+		if k, ok := constInt(kind); ok && k == 9 { // websocket.PingMessage
 			return true
 		}
 		return false
@@ -96,9 +106,21 @@ func (c *Ctx) isPingWrite(in ssa.Instruction, seen map[*ssa.Function]bool) bool 
 		return false
 	}
 	seen[g] = true
+	defer delete(seen, g)
+	nb := map[*ssa.Parameter]ssa.Value{}
+	args := ci.Common().Args
+	for i, prm := range g.Params {
+		if i < len(args) {
+			a := args[i]
+			if ap, isP := a.(*ssa.Parameter); isP && bind != nil && bind[ap] != nil {
+				a = bind[ap]
+			}
+			nb[prm] = a
+		}
+	}
 	res := false
 	allInstrs(g, func(x ssa.Instruction) {
-		if c.isPingWrite(x, seen) {
+		if c.isPingWriteIn(x, seen, nb) {
 			res = true
 		}
 	})
